@@ -40,14 +40,16 @@ pub struct Cx<'tcx> {
 impl<'tcx> Cx<'tcx> {
     /// Stable, definition-site path of an item: `<crate>::path::to::item`.
     pub fn path(&self, did: DefId) -> String {
-        use rustc_middle::ty::print::{with_no_trimmed_paths, with_no_visible_paths};
-        let p = with_no_visible_paths!(with_no_trimmed_paths!(self.tcx.def_path_str(did)));
+        use rustc_middle::ty::print::{with_crate_prefix, with_no_trimmed_paths, with_no_visible_paths};
+        let p = with_crate_prefix!(with_no_visible_paths!(with_no_trimmed_paths!(self.tcx.def_path_str(did))));
         let p = strip_generic_args(&p);
-        if did.is_local() {
-            format!("{}::{}", self.krate, p)
-        } else {
-            p
-        }
+        self.canon(&p)
+    }
+
+    /// `crate::` (local items, printed with the crate prefix) becomes the unit's canonical crate
+    /// name, so that the lib's items have the same path seen from the lib and from the bin.
+    pub fn canon(&self, p: &str) -> String {
+        p.replace("crate::", &format!("{}::", self.krate))
     }
 
     pub fn loc(&self, span: rustc_span::Span) -> String {
@@ -75,8 +77,9 @@ impl<'tcx> Cx<'tcx> {
     }
 
     pub fn ty_str(&self, ty: rustc_middle::ty::Ty<'tcx>) -> String {
-        use rustc_middle::ty::print::{with_no_trimmed_paths, with_no_visible_paths};
-        with_no_visible_paths!(with_no_trimmed_paths!(ty.to_string()))
+        use rustc_middle::ty::print::{with_crate_prefix, with_no_trimmed_paths, with_no_visible_paths};
+        let s = with_crate_prefix!(with_no_visible_paths!(with_no_trimmed_paths!(ty.to_string())));
+        self.canon(&s)
     }
 }
 
@@ -137,7 +140,9 @@ impl rustc_driver::Callbacks for Cb {
         let is_test = tcx.sess.opts.test;
         let unit = format!("{}{}", if is_bin { "bin" } else { "lib" }, if is_test { "-test" } else { "" });
 
-        let cx = Cx { tcx, krate: krate.clone() };
+        // the bin target has the same crate name as the lib: give its local paths a distinct prefix
+        let prefix = if is_bin { format!("{}_bin", krate) } else { krate.clone() };
+        let cx = Cx { tcx, krate: prefix };
 
         let mut bodies: Vec<J> = Vec::new();
         let mut n_bodies = 0i128;
